@@ -251,7 +251,8 @@ TIERS = {
          dict(required=['replace', 'remove', 'diamond-universe'])),
     ],
     'thorough': [
-        ('world', dict(n_ids=3, n_types=4, build=True, steps=1)),
+        ('world', dict(n_ids=3, n_types=3, build=True, steps=1)),
+        ('world', dict(n_ids=2, n_types=4, build=True, steps=1)),
         ('world', dict(n_ids=2, n_types=3, build=True, steps=2)),
         ('world', dict(n_ids=0, n_types=4, build=False, steps=3, ops_ids=3)),
         ('world', dict(n_ids=0, n_types=2, build=False, steps=4, ops_ids=2)),
@@ -272,7 +273,7 @@ RULE = ('one evaluation = one feasible path of the decision tree (distinct by co
 BOUNDS = {
     'quick': 'types A,B(A),C(B); shape I: 2 ids x 3 types presence bits + dead bits, 1 operation; '
              'shape H: 2 operations from the empty world; ops on ids 1,2,(k); diamond universe A,B(A),M(A),D(B,M) on one id, 1 operation',
-    'thorough': 'types A,B(A),C(B),X; shape I: 3 ids x 4 types, 1 op; 2 ids x 3 types, 2 ops; '
+    'thorough': 'types A,B(A),C(B),X; shape I: 3 ids x 3 types, 1 op; 2 ids x 4 types, 1 op; 2 ids x 3 types, 2 ops; diamond universe on 2 ids, 1 op; '
                 'shape H: 3 ops (ids 1,2,k; 4 types) and 4 ops (ids 1,2; 2 types)',
 }
 ASSUMPTIONS = [
@@ -284,3 +285,5 @@ ASSUMPTIONS = [
 ]
 OUTSIDE = ['histories longer than the bound that do not end in a canonically built state',
            'unhashable ids (assert)', 'universes larger than the stated alphabets']
+
+TECHNIQUE = 'bounded symbolic execution of the real World (symx/z3 path exploration): inductive step from symbolically built states + bounded histories, reference-model oracle'
